@@ -1,6 +1,7 @@
 package tmworld
 
 import (
+	"encoding/binary"
 	"fmt"
 	"testing"
 	"time"
@@ -21,16 +22,18 @@ import (
 func ProbeSpellingHeight(t *testing.T) (obs []string, fail *ksim.Fail) {
 	wk := ksim.NewWorker(t, 1)
 	w := wk.Root()
-	const rev, height = 0x636c69, 0x656e745374617465
+	// 16 bytes: five zero bytes followed by "clientState"
+	spell := append(make([]byte, 5), []byte("clientState")...)
+	rev, height := binary.BigEndian.Uint64(spell[:8]), binary.BigEndian.Uint64(spell[8:])
 	h := clienttypes.NewHeight(rev, height)
 	cs := ibctm.NewClientState(fmt.Sprintf("spell-%d", rev), ibctm.DefaultTrustLevel, Trusting, Unbonding, Drift, h, commitmenttypes.GetSDKSpecs(), ibctesting.UpgradePath)
-	cons := ibctm.NewConsensusState(time.Unix(0, Now0-sec(10)).UTC(), commitmenttypes.NewMerkleRoot([]byte("root")), make([]byte, 32))
+	cons := ibctm.NewConsensusState(time.Unix(0, Now0-sec(10)).UTC(), commitmenttypes.NewMerkleRoot([]byte("probe-root-0123456789abcdef-32byt")[:32]), []byte("probe-vals-0123456789abcdef-32byt")[:32])
 	msg, err := clienttypes.NewMsgCreateClient(cs, cons, ksim.Signer)
 	if err != nil {
 		return []string{"cannot build MsgCreateClient: " + err.Error()}, nil
 	}
 	r := w.Tx(0, msg)
-	obs = append(obs, fmt.Sprintf("MsgCreateClient with latest height %s: %s", h, r))
+	obs = append(obs, fmt.Sprintf("MsgCreateClient with latest height %s: %s %v", h, r, r.Err))
 	if r.Class != ksim.OK {
 		return obs, nil
 	}
@@ -42,12 +45,12 @@ func ProbeSpellingHeight(t *testing.T) (obs []string, fail *ksim.Fail) {
 	fail = sc.invC22(w, resp.ClientId)
 	k := wk.Chains[0].App.IBCKeeper
 	if p := catch(func() { _ = k.ClientKeeper.GetAllGenesisClients(w.CS[0].Ctx) }); p != "" {
-		obs = append(obs, "ClientKeeper.GetAllGenesisClients (genesis export) panics: "+p)
+		obs = append(obs, fmt.Sprintf("ClientKeeper.GetAllGenesisClients (genesis export) panics: %q", p))
 	} else {
 		obs = append(obs, "ClientKeeper.GetAllGenesisClients (genesis export) returns normally")
 	}
 	if p := catch(func() { _ = k.ConnectionKeeper.GetAllClientConnectionPaths(w.CS[0].Ctx) }); p != "" {
-		obs = append(obs, "ConnectionKeeper.GetAllClientConnectionPaths (genesis export) panics: "+p)
+		obs = append(obs, fmt.Sprintf("ConnectionKeeper.GetAllClientConnectionPaths (genesis export) panics: %q", p))
 	}
 	return obs, fail
 }
